@@ -35,7 +35,7 @@ struct Shared {
     over_limit: AtomicBool,
 }
 
-fn job(sh: Arc<Shared>, id: usize, duration: u32) -> impl FnOnce() + Send + 'static {
+fn job(sh: Arc<Shared>, id: usize, duration: u32, panics: bool) -> impl FnOnce() + Send + 'static {
     move || {
         sh.started[id].fetch_add(1, SeqCst);
         let now = sh.running.fetch_add(1, SeqCst) + 1;
@@ -52,6 +52,11 @@ fn job(sh: Arc<Shared>, id: usize, duration: u32) -> impl FnOnce() + Send + 'sta
         }
         sh.running.fetch_sub(1, SeqCst);
         sh.finished[id].fetch_add(1, SeqCst);
+        if panics {
+            // the worker thread unwinds; its slot must be released all the same
+            sim::probe("job-panicked");
+            panic!("[expected] job {id} panics");
+        }
     }
 }
 
@@ -61,8 +66,9 @@ fn pool() -> RunResult {
     let per: Vec<usize> = (0..dispatchers).map(|_| 1 + sim::range("jobs", 0, 3) as usize).collect();
     let total: usize = per.iter().sum::<usize>() + 1;
     let durations: Vec<u32> = (0..total).map(|_| sim::range("duration", 0, 6) as u32).collect();
+    let panics: Vec<bool> = (0..total).map(|i| i + 1 < total && sim::flip("job.panics", 1, 6)).collect();
     let timeout_ms = 1 + sim::range("idle.timeout", 0, 200);
-    sim::log(|| format!("pool limit {limit}, idle timeout {timeout_ms} ms; {dispatchers} dispatching threads with {per:?} jobs (+1 after the idle period); durations {durations:?}"));
+    sim::log(|| format!("pool limit {limit}, idle timeout {timeout_ms} ms; {dispatchers} dispatching threads with {per:?} jobs (+1 after the idle period); durations {durations:?}; panicking {panics:?}"));
     simsched::run(80_000, move || {
         let sh = Arc::new(Shared {
             limit,
@@ -79,10 +85,10 @@ fn pool() -> RunResult {
         for n in per.iter().copied() {
             let ids: Vec<usize> = (next..next + n).collect();
             next += n;
-            let (pool, sh, durations) = (pool.clone(), sh.clone(), durations.clone());
+            let (pool, sh, durations, panics) = (pool.clone(), sh.clone(), durations.clone(), panics.clone());
             handles.push(thread::spawn(move || {
                 for id in ids {
-                    submit(&pool, &sh, id, durations[id]);
+                    submit(&pool, &sh, id, durations[id], panics[id]);
                 }
             }));
         }
@@ -98,7 +104,7 @@ fn pool() -> RunResult {
             sim::probe("worker-retired-by-idle-timeout");
         }
         let last = next;
-        submit(&pool, &sh, last, durations[last]);
+        submit(&pool, &sh, last, durations[last], false);
         wait_all(&sh, last..last + 1);
         for id in 0..total {
             let (s, f) = (sh.started[id].load(SeqCst), sh.finished[id].load(SeqCst));
@@ -116,8 +122,8 @@ fn pool() -> RunResult {
 }
 
 /// What a runtime does: dispatch, and when the pool says "all threads busy", take the job back and retry.
-fn submit(pool: &AsyncifyPool, sh: &Arc<Shared>, id: usize, duration: u32) {
-    let mut f: Box<dyn FnOnce() + Send + 'static> = Box::new(job(sh.clone(), id, duration));
+fn submit(pool: &AsyncifyPool, sh: &Arc<Shared>, id: usize, duration: u32, panics: bool) {
+    let mut f: Box<dyn FnOnce() + Send + 'static> = Box::new(job(sh.clone(), id, duration, panics));
     let mut tries = 0u32;
     loop {
         match pool.dispatch(f) {
